@@ -24,35 +24,41 @@
 (declare-fun unq (String) String)         ; text of a quoted atom                      (concretely: filt s (len s - 1))
 (define-fun atomkind ((t TT)) Bool (or ((_ is TTAtom) t) ((_ is TTNum) t) ((_ is TTStr) t)))
 
-; well-formed: functor names are atoms of the grammar, token texts match their rules, the optional termlist of a
-; list-pair pattern is empty when absent
-(define-funs-rec ((ttwf ((t TT)) Bool) (ttwfl ((l TTL)) Bool)) (
-  (ite ((_ is TTStr) t) (isstrtok (ttstext t))
-  (ite ((_ is TTFun) t) (and (atomkind (ttfa t)) (ttwf (ttfa t)) (ttwfl (ttfargs t)))
-  (ite ((_ is TTVar) t) (isvartok (ttv t))
-  (ite ((_ is TTUn) t) (ttwf (ttu1 t))
-  (ite ((_ is TTBin) t) (and (ttwf (ttb1 t)) (ttwf (ttb2 t)))
-  (ite ((_ is TTParen) t) (ttwf (ttp t))
-  (ite ((_ is TTList) t) (ttwfl (ttitems t))
-  (ite ((_ is TTPairs) t) (and (ttwf (ttph t)) (ttwfl (ttprest t)) (isvartok (ttptail t)) (=> (not (ttphas t)) ((_ is ttnil) (ttprest t))))
-       true))))))))
-  (ite ((_ is ttnil) l) true (and (ttwf (tthd l)) (ttwfl (tttl l))))))
-
-; L-WF-PAIRS (one unfolding of ttwf; proved from the definition in vf/lemmas.py): no termlist, no further elements
-(assert (forall ((t TT)) (! (=> (and ((_ is TTPairs) t) (ttwf t) (not (ttphas t))) ((_ is ttnil) (ttprest t))) :pattern ((ttwf t)))))
-
-; supported: everything but `name/arity` terms and compound terms whose functor is a numeral (the visitor builds no
-; usable AST for those; compilation ends in an AttributeError - a rejection, observed by the bounded runs)
-(define-funs-rec ((ttsup ((t TT)) Bool) (ttsupl ((l TTL)) Bool)) (
-  (ite ((_ is TTFun) t) (and (not ((_ is TTNum) (ttfa t))) (ttsupl (ttfargs t)))
-  (ite ((_ is TTSlash) t) false
-  (ite ((_ is TTUn) t) (ttsup (ttu1 t))
-  (ite ((_ is TTBin) t) (and (ttsup (ttb1 t)) (ttsup (ttb2 t)))
-  (ite ((_ is TTParen) t) (ttsup (ttp t))
-  (ite ((_ is TTList) t) (ttsupl (ttitems t))
-  (ite ((_ is TTPairs) t) (and (ttsup (ttph t)) (ttsupl (ttprest t)))
-       true)))))))
-  (ite ((_ is ttnil) l) true (and (ttsup (tthd l)) (ttsupl (tttl l))))))
+; Well-formedness (A-EXT-ANTLR: what every tree produced by the parser satisfies) and support, given by their one-step
+; consequences only - the verification needs nothing else, and uninterpreted predicates with selector-triggered axioms keep the
+; solvers from unfolding a recursive predicate over a symbolic tree.
+;   well-formed: functor names are atoms of the grammar, token texts match their rules, the optional termlist of a list-pair
+;                pattern is empty when absent
+;   supported:   everything but `name/arity` terms and compound terms whose functor is a numeral (the visitor builds no usable
+;                AST for those; compilation ends in an AttributeError - a rejection, observed by the bounded runs)
+(declare-fun ttwf (TT) Bool) (declare-fun ttwfl (TTL) Bool) (declare-fun ttsup (TT) Bool) (declare-fun ttsupl (TTL) Bool)
+(assert (forall ((t TT)) (! (=> (and ((_ is TTStr) t) (ttwf t)) (isstrtok (ttstext t))) :pattern ((ttstext t)))))
+(assert (forall ((t TT)) (! (=> (and ((_ is TTVar) t) (ttwf t)) (isvartok (ttv t))) :pattern ((ttv t)))))
+(assert (forall ((t TT)) (! (=> (and ((_ is TTFun) t) (ttwf t)) (and (atomkind (ttfa t)) (ttwf (ttfa t)))) :pattern ((ttfa t)))))
+(assert (forall ((t TT)) (! (=> (and ((_ is TTFun) t) (ttwf t)) (ttwfl (ttfargs t))) :pattern ((ttfargs t)))))
+(assert (forall ((t TT)) (! (=> (and ((_ is TTUn) t) (ttwf t)) (ttwf (ttu1 t))) :pattern ((ttu1 t)))))
+(assert (forall ((t TT)) (! (=> (and ((_ is TTBin) t) (ttwf t)) (ttwf (ttb1 t))) :pattern ((ttb1 t)))))
+(assert (forall ((t TT)) (! (=> (and ((_ is TTBin) t) (ttwf t)) (ttwf (ttb2 t))) :pattern ((ttb2 t)))))
+(assert (forall ((t TT)) (! (=> (and ((_ is TTParen) t) (ttwf t)) (ttwf (ttp t))) :pattern ((ttp t)))))
+(assert (forall ((t TT)) (! (=> (and ((_ is TTList) t) (ttwf t)) (ttwfl (ttitems t))) :pattern ((ttitems t)))))
+(assert (forall ((t TT)) (! (=> (and ((_ is TTPairs) t) (ttwf t)) (ttwf (ttph t))) :pattern ((ttph t)))))
+(assert (forall ((t TT)) (! (=> (and ((_ is TTPairs) t) (ttwf t)) (and (ttwfl (ttprest t)) (=> (not (ttphas t)) ((_ is ttnil) (ttprest t)))))
+                            :pattern ((ttprest t)))))
+(assert (forall ((t TT)) (! (=> (and ((_ is TTPairs) t) (ttwf t)) (isvartok (ttptail t))) :pattern ((ttptail t)))))
+(assert (forall ((l TTL)) (! (=> (and ((_ is ttcons) l) (ttwfl l)) (ttwf (tthd l))) :pattern ((tthd l)))))
+(assert (forall ((l TTL)) (! (=> (and ((_ is ttcons) l) (ttwfl l)) (ttwfl (tttl l))) :pattern ((tttl l)))))
+(assert (forall ((t TT)) (! (=> (ttsup t) (not ((_ is TTSlash) t))) :pattern ((ttsup t)))))
+(assert (forall ((t TT)) (! (=> (and ((_ is TTFun) t) (ttsup t)) (not ((_ is TTNum) (ttfa t)))) :pattern ((ttfa t)))))
+(assert (forall ((t TT)) (! (=> (and ((_ is TTFun) t) (ttsup t)) (ttsupl (ttfargs t))) :pattern ((ttfargs t)))))
+(assert (forall ((t TT)) (! (=> (and ((_ is TTUn) t) (ttsup t)) (ttsup (ttu1 t))) :pattern ((ttu1 t)))))
+(assert (forall ((t TT)) (! (=> (and ((_ is TTBin) t) (ttsup t)) (ttsup (ttb1 t))) :pattern ((ttb1 t)))))
+(assert (forall ((t TT)) (! (=> (and ((_ is TTBin) t) (ttsup t)) (ttsup (ttb2 t))) :pattern ((ttb2 t)))))
+(assert (forall ((t TT)) (! (=> (and ((_ is TTParen) t) (ttsup t)) (ttsup (ttp t))) :pattern ((ttp t)))))
+(assert (forall ((t TT)) (! (=> (and ((_ is TTList) t) (ttsup t)) (ttsupl (ttitems t))) :pattern ((ttitems t)))))
+(assert (forall ((t TT)) (! (=> (and ((_ is TTPairs) t) (ttsup t)) (ttsup (ttph t))) :pattern ((ttph t)))))
+(assert (forall ((t TT)) (! (=> (and ((_ is TTPairs) t) (ttsup t)) (ttsupl (ttprest t))) :pattern ((ttprest t)))))
+(assert (forall ((l TTL)) (! (=> (and ((_ is ttcons) l) (ttsupl l)) (ttsup (tthd l))) :pattern ((tthd l)))))
+(assert (forall ((l TTL)) (! (=> (and ((_ is ttcons) l) (ttsupl l)) (ttsupl (tttl l))) :pattern ((tttl l)))))
 
 ; number of anonymous variables `_` in a term, left to right
 (define-fun vcnt ((v String)) Int (ite (= v "_") 1 0))
@@ -111,12 +117,14 @@
   (PENeg (pen PE))                           ; op='\+' predicateexpression
   (PEBin (peop String) (pel PE) (per PE))    ; predicateexpression op=(','|'->'|';') predicateexpression
   (PEParen (pep PE)))))                      ; '(' predicateexpression ')'
-; the grammar only has the three binary operators
-(define-fun-rec wfpe ((p PE)) Bool
-  (ite ((_ is PESimple) p) (spwf (pesp p))
-  (ite ((_ is PENeg) p) (wfpe (pen p))
-  (ite ((_ is PEParen) p) (wfpe (pep p))
-       (and (or (= (peop p) ",") (= (peop p) "->") (= (peop p) ";")) (wfpe (pel p)) (wfpe (per p)))))))
+; the grammar only has the three binary operators; the simple predicates are well-formed and supported (one-step consequences)
+(declare-fun wfpe (PE) Bool)
+(assert (forall ((p PE)) (! (=> (and ((_ is PESimple) p) (wfpe p)) (spwf (pesp p))) :pattern ((pesp p)))))
+(assert (forall ((p PE)) (! (=> (and ((_ is PENeg) p) (wfpe p)) (wfpe (pen p))) :pattern ((pen p)))))
+(assert (forall ((p PE)) (! (=> (and ((_ is PEParen) p) (wfpe p)) (wfpe (pep p))) :pattern ((pep p)))))
+(assert (forall ((p PE)) (! (=> (and ((_ is PEBin) p) (wfpe p)) (or (= (peop p) ",") (= (peop p) "->") (= (peop p) ";"))) :pattern ((peop p)))))
+(assert (forall ((p PE)) (! (=> (and ((_ is PEBin) p) (wfpe p)) (wfpe (pel p))) :pattern ((pel p)))))
+(assert (forall ((p PE)) (! (=> (and ((_ is PEBin) p) (wfpe p)) (wfpe (per p))) :pattern ((per p)))))
 (define-fun-rec pecnt ((p PE)) Int
   (ite ((_ is PESimple) p) (spcnt (pesp p))
   (ite ((_ is PENeg) p) (pecnt (pen p))
